@@ -666,14 +666,14 @@ theorem dqm_file_roundtrip_closed (crc32 : Bytes → Nat) (inflate : Bytes → O
     (wf : DqmWF c) (hnpy : ∀ m ∈ dqmMembers c, m.OK) (hl : JOKs (serializeLabels labels)) (hn : labels.length = c.caseStarts.length)
     (hcrc : ∀ b, crc32 b < 256 ^ 4) (hcodec : ∀ d, deflate = some d → ∀ b, inflate (d b) = some b) (hμ : ∀ i, (μ i).OK)
     (hfit : ∀ m ∈ npzArchive (dqmMembers c), MemberFits deflate m)
-    (hsize : (npzBytes crc32 deflate μ (dqmMembers c)).length < 4294967295)
+    (hsize : dqmBlobBase ignore c labels + (npzBytes crc32 deflate μ (dqmBlobBase ignore c labels) (dqmMembers c)).length < 4294967295)
     (hlen : (dumpsDict (dqmCountsDict (dqmCounts c) (dqmVariablesFlag ignore labels))).length + 65 < 2 ^ 32)
     (hvlen : (dumpsJ (.arr (serializeLabels labels))).length + 64 < 256 ^ nlb4) :
     loadDqm crc32 inflate (dumpDqm crc32 deflate μ ignore c labels) =
       .ok (dqmCountsDict (dqmCounts c) (dqmVariablesFlag ignore labels), c,
            if dqmVariablesFlag ignore labels then some (serializeLabels labels) else none) := by
   obtain ⟨x, e, hxe, h22, hsig, hz, hdir, hmagic, _, hread⟩ :=
-    readDqmBlob_npz crc32 inflate deflate μ c wf hnpy hcrc hcodec hμ hfit hsize
+    readDqmBlob_npz crc32 inflate deflate μ (dqmBlobBase ignore c labels) c wf hnpy hcrc hcodec hμ hfit hsize
   unfold loadDqm dumpDqm
   rw [hxe]
   have h256 : (256 : Nat) ^ 4 = 4294967296 := by decide
